@@ -151,34 +151,42 @@ for kind in ('gz', 'bz2'):
             emit(kind, blob, pname, pdata, cls, expect_ok=True)
     # ---- stream boundary alignment: compressed length of the first stream(s) = r mod 5000
     # (libbz2 reads the file in 5000-byte pieces) and mod 4096/8192
-    hp = [p for p in payloads if p[2] == 'high' and len(p[1]) >= 2 ** 20 - 1][0]
+    # The payload is the compressible one: its compressed size moves by about 0.2-0.3 bytes per
+    # input byte, so a scan over neighbouring prefix lengths meets every compressed size several
+    # times (with incompressible data each size is met about once: a third of the searches fail).
+    hp = [p for p in payloads if p[2] == 'low' and len(p[1]) >= 2 ** 20 - 1][0]
 
-    def first_stream_with_length(target_c, modulus, r):
-        """payload prefix length whose compressed size is = r mod modulus, near target_c bytes:
-        bisection on the (roughly monotone) compressed size, then a scan around that point"""
-        lo, hi = 1, min(len(hp[1]) - 6000, 400000)
+    def find_piece(start, target_c, modulus, want):
+        """(n, blob): blob = compressed hp[start:start+n] with len(blob) = want mod modulus, about
+        target_c bytes long: bisection on the (roughly monotone) compressed size, then a scan"""
+        limit = len(hp[1]) - start - 6000
+        lo, hi = 1, limit
         while lo < hi:
             mid = (lo + hi) // 2
-            if len(comp(kind, hp[1][:mid], 9)) < target_c:
+            if len(comp(kind, hp[1][start:start + mid], 9)) < target_c:
                 lo = mid + 1
             else:
                 hi = mid
-        for delta in range(0, 500):
-            for cand in (lo + delta, lo - delta):
-                if cand <= 0 or cand > len(hp[1]) - 6000:
+        for delta in range(0, 1200):
+            for n in (lo + delta, lo - delta):
+                if n <= 0 or n > limit:
                     continue
-                c1 = comp(kind, hp[1][:cand], 9)
-                if len(c1) % modulus == r:
-                    return cand, c1
+                c1 = comp(kind, hp[1][start:start + n], 9)
+                if len(c1) % modulus == want:
+                    return n, c1
         return None
 
     for modulus, residues in ((5000, (0, 1, 2, 3, 4997, 4998, 4999)), (4096, (0, 1, 4095)), (100, (0, 1, 99))):
         for r in residues:
-            for target_c in ((modulus + r, modulus * 2 + r) if modulus >= 4096 else (modulus * 30 + r,)):
-                found = first_stream_with_length(target_c, modulus, r)
+            nfound = 0
+            for k in ((1, 2, 3, 4, 5, 6, 7, 8) if modulus >= 4096 else (30, 31, 32, 33)):
+                if nfound == (2 if modulus >= 4096 else 1):
+                    break
+                found = find_piece(0, modulus * k + r, modulus, r)
                 if not found:
-                    print('note: no %s first stream with compressed length = %d mod %d' % (kind, r, modulus), file=sys.stderr)
+                    print('note: no %s first stream with compressed length = %d mod %d near %d bytes' % (kind, r, modulus, modulus * k + r), file=sys.stderr)
                     continue
+                nfound += 1
                 cand, c1 = found
                 for tail in (1, 300):
                     end = min(len(hp[1]), cand + tail)
@@ -193,18 +201,21 @@ for kind in ('gz', 'bz2'):
     for modulus in (5000, 4096, 100):
         for nstreams in (1, 2):
             found = None
-            for cand in range(modulus * 2 - 200, len(hp[1]) - 10):
+            for k in (2, 3, 4, 5, 6, 7):
                 if nstreams == 1:
-                    blob = comp(kind, hp[1][:cand], 9)
+                    found = find_piece(0, modulus * k, modulus, 0)
                 else:
-                    blob = comp(kind, hp[1][:cand // 2], 9) + comp(kind, hp[1][cand // 2:cand], 9)
-                if len(blob) % modulus == 0:
-                    found = (cand, blob)
-                    break
-                if cand > modulus * 3 + 400:
+                    first = comp(kind, hp[1][:7000], 9)
+                    want = (-len(first)) % modulus
+                    found = find_piece(7000, modulus * k + want, modulus, want)
+                    if found:
+                        found = (7000 + found[0], first + found[1])
+                if found:
                     break
             if found:
                 emit(kind, found[1], hp[0], hp[1][:found[0]], '%s %d stream(s), total compressed size = 0 mod %d' % (kind, nstreams, modulus), expect_ok=None)
+            else:
+                print('note: no %s file of %d stream(s) with total compressed size = 0 mod %d' % (kind, nstreams, modulus), file=sys.stderr)
     # ---- deliberate witnesses of the zlib gzread blind spot (recorded finding): truncate where the cut stream has
     # produced exactly 16384 bytes
     if kind == 'gz':
